@@ -629,3 +629,8 @@ func (s *ErrSigningFailure) Error() string {
 func (s *ErrSigningFailure) Unwarp() error {
 	return s.Err
 }
+
+// Unwrap returns the underlying error, so that errors.Is and errors.As see it.
+func (s *ErrSigningFailure) Unwrap() error {
+	return s.Err
+}
